@@ -13,12 +13,25 @@ MANIFEST = dict(
     note='Trusted: Coq kernel + vm_compute, translate/c08_sites.py, c08_keys.py, c08_norm.py (which call sites matter: copy() methods of the five ID classes and collapse_one; other functions that build objects from a foreign map are not in the census), hand models SM/IdMan.v, SM/IdLife.v, SM/IdFixupHist.v, SM/IdWorld.v, SM/IdNest.v, SM/IdNode.v (tied by differential runs), CPython refcount/gc for __del__ timing. Brush groups and visgroups are independent single-kind models (each class uses the manager of its kind: census obligation); their IDs are never released (no destructor: leak, modelled as such). collapse_one is an event of the nested model (which brushes and entities it copies, in which order, is computed by the model and compared with the real function; hidden objects, visgroup handling and the keyvalue rewriting are searched, not modelled). Node IDs reserved by Instance.fixup_key are never released (a leak; modelled as the event NReserve and compared). The deprecated Entity.keys dict (returned by reference) and a table handed to EntityFixup.__setstate__ bypass the censuses (listed as exposures). Maps opened with preserve_ids=True are exempt by definition.',
 )
 
-IMPORTS = ['SV.SM.IdMan', 'SV.SM.IdManSpec', 'SV.SM.IdLife', 'SV.SM.IdFixupHist', 'SV.SM.IdWorld', 'SV.SM.IdNest', 'SV.SM.IdNode', 'SV.Gen.IdSites_gen', 'SV.Props.C08',
+IMPORTS = ['SV.SM.IdMan', 'SV.SM.IdManSpec', 'SV.SM.IdLife', 'SV.SM.IdFixupHist', 'SV.SM.IdWorld', 'SV.SM.IdNest', 'SV.SM.IdNode', 'SV.SM.IdNodeMaps', 'SV.Gen.IdSites_gen', 'SV.Props.C08',
            'Coq.ZArith.ZArith', 'Coq.Lists.List']
 PRE = '''Import ListNotations. Open Scope Z_scope.
 Fixpoint zl_eqb (a b : list Z) : bool := match a, b with [] , [] => true | x :: a', y :: b' => Z.eqb x y && zl_eqb a' b' | _, _ => false end.
 Fixpoint bad_idx {A} (f : A -> bool) (n : Z) (l : list A) : list Z := match l with [] => [] | x :: r => (if f x then [] else [n]) ++ bad_idx f (n + 1) r end.
 '''
+
+
+def eval_bad(ck: Ck, name: str, preamble: str, exprs: list[str], per_call: int = 8) -> list[list[int]] | None:
+    """Evaluate `bad_idx ...` expressions, several per coqc process (starting a process that loads the development costs
+    more than evaluating a few hundred cases).  Returns the list of disagreeing indexes per expression, or None."""
+    from harness.common import parse_coq_N_list
+    out: list[list[int]] = []
+    for lo in range(0, len(exprs), per_call):
+        vals = ck.coq_eval(IMPORTS, exprs[lo:lo + per_call], name=name, preamble=preamble)
+        if vals is None:
+            return None
+        out += [parse_coq_N_list(v) for v in vals]
+    return out
 
 
 # ------------------------------------------------------------------------------------------------ allocator
@@ -114,17 +127,18 @@ def corr_idman(ck: Ck) -> None:
             ck.seen(('idman', tuple(ops)))
     ck.sample({'idman_ops': [coq_op(o) for o in cases[3][0]], 'impl_results': cases[3][1]})
     bad: list[int] = []
+    exprs = []
     for lo in range(0, len(cases), 500):
         part = cases[lo:lo + 500]
         lit = coq_list(f'(({coq_Z_list(ex)}, {coq_list(coq_op(o) for o in ops)}), {coq_Z_list(exp)})' for ops, exp, ex in part)
-        vals = ck.coq_eval(IMPORTS, [f'bad_idx (fun c : (list Z * list op) * list Z => zl_eqb (run_res idman_lower_guard (init_from (fst (fst c))) (snd (fst c))) (snd c)) 0 {lit}'],
-                           name='idman', preamble=PRE)
-        if vals is None:
-            ck.obligation('correspondence:idman', False, 'model could not be evaluated')
-            ck.tie_broken.append('correspondence IDMan: model evaluation failed')
-            return
-        from harness.common import parse_coq_N_list
-        bad += [lo + i for i in parse_coq_N_list(vals[0])]
+        exprs.append(f'bad_idx (fun c : (list Z * list op) * list Z => zl_eqb (run_res idman_lower_guard (init_from (fst (fst c))) (snd (fst c))) (snd c)) 0 {lit}')
+    res = eval_bad(ck, 'idman', PRE, exprs, per_call=4)
+    if res is None:
+        ck.obligation('correspondence:idman', False, 'model could not be evaluated')
+        ck.tie_broken.append('correspondence IDMan: model evaluation failed')
+        return
+    for c, idxs in enumerate(res):
+        bad += [c * 500 + i for i in idxs]
     ck.obligation('correspondence:idman', not bad,
                   f'{len(cases)} operation sequences, model (vm_compute) vs srctools.vmf.IDMan: {len(bad)} disagreements')
     if bad:
@@ -998,17 +1012,25 @@ def corr_world(ck: Ck) -> None:
     nk = len(WORLD_KINDS)
     ck.sample({'world_history': cases[-nk][3], 'events_per_kind': {c[0]: c[1] for c in cases[-nk:]},
                'impl(id,alive,inmap,home)*_then_next_ids': {c[0]: c[2] for c in cases[-nk:]}})
-    bad = []
+    # per-kind streams and bundled events are evaluated by the same coqc processes
+    exprs = []
     for lo in range(0, len(cases), 300):
         part = cases[lo:lo + 300]
         lit = coq_list(f'(({k}, {coq_list(evs)}), {coq_Z_list(exp)})' for k, evs, exp, _ in part)
-        vals = ck.coq_eval(IMPORTS, [f'bad_idx (fun c : (kind * list wev) * list Z => zl_eqb (wfull (fst (fst c)) (snd (fst c))) (snd c)) 0 {lit}'],
-                           name='world', preamble=WORLD_PRE)
-        if vals is None:
-            ck.obligation('correspondence:world', False, 'model could not be evaluated')
-            ck.tie_broken.append('correspondence multi-map lifecycle: model evaluation failed')
-            return
-        bad += [lo + i for i in parse_coq_N_list(vals[0])]
+        exprs.append(f'bad_idx (fun c : (kind * list wev) * list Z => zl_eqb (wfull (fst (fst c)) (snd (fst c))) (snd c)) 0 {lit}')
+    n_world = len(exprs)
+    for lo in range(0, len(nested), 150):
+        part = nested[lo:lo + 150]
+        lit = coq_list(f'({coq_list(t)}, (({coq_Z_list(e[0])}, {coq_Z_list(e[1])}), {coq_Z_list(e[2] + [-5] + e[3])}))' for t, e, _ in part)
+        exprs.append('bad_idx (fun c : list tev * ((list Z * list Z) * list Z) => match tfull (fst c) with (a, b, f) => '
+                     f'andb (andb (zl_eqb a (fst (fst (snd c)))) (zl_eqb b (snd (fst (snd c))))) (zl_eqb f (snd (snd c))) end) 0 {lit}')
+    res = eval_bad(ck, 'world', WORLD_PRE, exprs, per_call=6)
+    if res is None:
+        ck.obligation('correspondence:world', False, 'model could not be evaluated')
+        ck.obligation('correspondence:nested', False, 'model could not be evaluated')
+        ck.tie_broken.append('correspondence multi-map lifecycle: model evaluation failed')
+        return
+    bad = [c * 300 + i for c, idxs in enumerate(res[:n_world]) for i in idxs]
     ck.obligation('correspondence:world', not bad,
                   f'{len(cases)} per-kind event streams of {n} histories over three maps, model wrun vs real VMF/Entity/Solid/Side/EntityGroup/VisGroup/gc: {len(bad)} disagreements')
     if bad:
@@ -1017,19 +1039,9 @@ def corr_world(ck: Ck) -> None:
         ck.extra['world_disagreement'] = {'kind': c[0], 'events': c[1], 'impl': c[2], 'history': c[3]}
     # the same histories as bundled events on top-level objects: the model (SM/IdNest.v) decides which constructor /
     # copy / remove / destructor calls happen for the parts, in which order and with which desired IDs
-    ck.sample({'nested_events': nested[-1][0], 'impl_per_kind(id,alive,inmap,home)*_then_next_ids': nested[-1][1]})
-    bad = []
-    for lo in range(0, len(nested), 150):
-        part = nested[lo:lo + 150]
-        lit = coq_list(f'({coq_list(t)}, (({coq_Z_list(e[0])}, {coq_Z_list(e[1])}), {coq_Z_list(e[2] + [-5] + e[3])}))' for t, e, _ in part)
-        vals = ck.coq_eval(IMPORTS, ['bad_idx (fun c : list tev * ((list Z * list Z) * list Z) => match tfull (fst c) with (a, b, f) => '
-                                     f'andb (andb (zl_eqb a (fst (fst (snd c)))) (zl_eqb b (snd (fst (snd c))))) (zl_eqb f (snd (snd c))) end) 0 {lit}'],
-                           name='nested', preamble=WORLD_PRE)
-        if vals is None:
-            ck.obligation('correspondence:nested', False, 'model could not be evaluated')
-            ck.tie_broken.append('correspondence nested objects: model evaluation failed')
-            return
-        bad += [lo + i for i in parse_coq_N_list(vals[0])]
+    if nested:
+        ck.sample({'nested_events': nested[-1][0], 'impl_per_kind(id,alive,inmap,home)*_then_next_ids': nested[-1][1]})
+    bad = [c * 150 + i for c, idxs in enumerate(res[n_world:]) for i in idxs]
     ck.obligation('correspondence:nested', not bad,
                   f'{len(nested)} histories of bundled events on entities / brush entities / world brushes over three maps incl. the real collapse_one, '
                   f'model trun (parts, order, desired IDs, the brush/entity lists of every map and the objects collapse_one copies decided by the model) vs the implementation: {len(bad)} disagreements')
@@ -1170,9 +1182,17 @@ def gen_node_case(rng: random.Random, n_ev: int):
     return evs, exp, held, scan_map(vmf)
 
 
-def corr_node(ck: Ck) -> None:
+def corr_nodes(ck: Ck) -> None:
+    """Both node correspondences, evaluated by the same coqc processes."""
+    ex1, fin1 = corr_node(ck)
+    ex2, fin2 = corr_nodemaps(ck)
+    res = eval_bad(ck, 'node', NODE_PRE + NODEMAPS_PRE[len(PRE):], ex1 + ex2, per_call=6)
+    fin1(None if res is None else res[:len(ex1)])
+    fin2(None if res is None else res[len(ex1):])
+
+
+def corr_node(ck: Ck):
     """SM/IdNode.v against real histories of the 'nodeid' keyvalue (set/delete/pop/clear/copy/remove/re-add/gc)."""
-    from harness.common import parse_coq_N_list
     n = ck.budget(250, 3000)
     cases = []
     for i in range(n):
@@ -1189,23 +1209,188 @@ def corr_node(ck: Ck) -> None:
                          f'existing entities hold node IDs {sorted(held)}', {'node_events': evs, 'impl': exp,
                          'how': 'events in the notation of SM/IdNode.v: NCreate = create_ent(nodeid=..), NSet = ent[nodeid]=.., NDel = del/pop/clear, NRemove/NReAdd/NGc/NCopy'})
     ck.sample({'node_events': cases[-1][0], 'impl(nid|-9,alive,inmap)*_then_next_id': cases[-1][1]})
-    bad = []
+    exprs = []
     for lo in range(0, len(cases), 400):
         part = cases[lo:lo + 400]
         lit = coq_list(f'({coq_list(evs)}, {coq_Z_list(exp)})' for evs, exp in part)
-        vals = ck.coq_eval(IMPORTS, [f'bad_idx (fun c : list nev * list Z => zl_eqb (nfull (fst c)) (snd c)) 0 {lit}'],
-                           name='node', preamble=NODE_PRE)
-        if vals is None:
-            ck.obligation('correspondence:node', False, 'model could not be evaluated')
-            ck.tie_broken.append('correspondence nav-node IDs: model evaluation failed')
-            return
-        bad += [lo + i for i in parse_coq_N_list(vals[0])]
+        exprs.append(f'bad_idx (fun c : list nev * list Z => zl_eqb (nfull (fst c)) (snd c)) 0 {lit}')
+    return exprs, lambda res: _finish_node(ck, cases, res)
+
+
+def _finish_node(ck: Ck, cases, res) -> None:
+    if res is None:
+        ck.obligation('correspondence:node', False, 'model could not be evaluated')
+        ck.tie_broken.append('correspondence nav-node IDs: model evaluation failed')
+        return
+    bad = [c * 400 + i for c, idxs in enumerate(res) for i in idxs]
     ck.obligation('correspondence:node', not bad,
                   f"{len(cases)} histories of the 'nodeid' keyvalue (incl. IDs reserved by Instance.fixup_key), model nrun vs real Entity/VMF: {len(bad)} disagreements")
     if bad:
         c = min((cases[i] for i in bad), key=lambda c: len(c[0]))
         ck.tie_broken.append("correspondence nav-node IDs (SM/IdNode.v nrun vs Entity.__setitem__/__delitem__/clear/__del__, VMF.add_ent/remove_ent)")
         ck.extra['node_disagreement'] = {'events': c[0], 'impl': c[1]}
+
+
+# ------------------------------------------------------------------------------------------------ nav-node IDs, several maps
+NODEMAPS_PRE = PRE + '''
+Definition mobs (w : mworld) : list Z :=
+  flat_map (fun p : nat * nat => match nth_error (nents (mmap w (fst p))) (snd p) with
+                                 | Some o => [match nid o with Some n => n | None => -9 end; if nalive o then 1 else 0;
+                                              if ninmap o then 1 else 0; Z.of_nat (fst p)]
+                                 | None => [-8] end) (mdir w).
+Definition mprobe (w : mworld) (m : nat) : Z := match get_id (-1) (nman (mmap w m)) with Some (i, _) => i | None => -3 end.
+Definition mfull (es : list mev) : list Z :=
+  let w := mrun node_realloc_on_add node_release_on_remove node_release_in_del node_copy_registers es in
+  mobs w ++ [mprobe w 0%nat; mprobe w 1%nat; mprobe w 2%nat].
+'''
+
+
+def gen_nodemaps_case(rng: random.Random, n_ev: int):
+    """A random history of 'nodeid' keyvalues over three real maps incl. cross-map copies and the real collapse_one
+    -> (events of SM/IdNodeMaps.v, expected observations, per-map lists of held IDs)."""
+    import weakref
+    from srctools import instancing
+    from srctools.fgd import ValueTypes
+    from srctools.math import Matrix, Vec
+    from srctools.vmf import VMF
+    maps = [VMF(), VMF(), VMF()]
+    ents: list[list] = []      # [obj, weakref, last nid, alive, inmap, home]
+    evs: list[str] = []
+
+    def opt(d):
+        return 'None' if d is None else f'(Some {_zs(d)})'
+
+    def value():
+        if rng.random() < 0.1:
+            return None, rng.choice(['abc', '', '3.5'])
+        d = rng.choice([-1, 0, -4, 1, 2, 2, 3, 3, 5, 9])
+        return d, rng.choice([str(d), d])
+
+    for _ in range(n_ev):
+        r = rng.random()
+        live = [i for i, e in enumerate(ents) if e[0] is not None]
+        if r < 0.28 or not live:
+            m = rng.randrange(3)
+            if rng.random() < 0.15:
+                e = maps[m].create_ent('info_target')
+                d = None
+            else:
+                d, val = value()
+                e = maps[m].create_ent('info_node', nodeid=val)
+            ents.append([e, weakref.ref(e), None, True, True, m])
+            evs.append(f'MCreate {m}%nat {opt(d)}')
+            e = None
+        elif r < 0.34:
+            m = rng.randrange(3)
+            val = rng.choice(['-1', '0', '1', '2', '3', '5', 'abc'])
+            instancing.Instance('inst', '', Vec(), Matrix()).fixup_key(
+                maps[m], (), rng.choice([ValueTypes.TARG_NODE_SOURCE, ValueTypes.TARG_NODE_DEST]), val)
+            if _isint(val):
+                evs.append(f'MReserve {m}%nat {_zs(int(val))}')
+        elif r < 0.44:
+            # the real collapse_one: map s as an instance into map dest (entities only; the harness reads which entities
+            # the instance map lists, in list order, and which objects appeared in the destination)
+            s_, dest = rng.sample(range(3), 2)
+            ks = [next(i for i, e in enumerate(ents) if e[0] is o) for o in maps[s_].entities]
+            n0 = len(maps[dest].entities)
+            inst = instancing.Instance('inst', '', Vec(8, 0, 0), Matrix())
+            instancing.collapse_one(maps[dest], inst, instancing.InstanceFile(maps[s_]))
+            for c in maps[dest].entities[n0:]:
+                ents.append([c, weakref.ref(c), None, True, True, dest])
+            evs.append(f'MCollapse {coq_list(f"{k}%nat" for k in ks)} {dest}%nat')
+            c = inst = None
+        else:
+            k = rng.choice(live)
+            o = ents[k]
+            if r < 0.56:
+                # only on node entities: collapse_one treats a 'nodeid' key by the FGD type of the entity's class, and the
+                # model is about the classes for which it is a node ID
+                if o[0]['classname'] == 'info_node':
+                    d, val = value()
+                    o[0][rng.choice(['nodeid', 'NODEID'])] = val
+                    evs.append(f'MOn {k}%nat (OSet {opt(d)})')
+            elif r < 0.64:
+                if rng.random() < 0.5:
+                    del o[0]['nodeid']
+                else:
+                    o[0].pop('NodeId')
+                evs.append(f'MOn {k}%nat ODel')
+            elif r < 0.74:
+                if o[4]:
+                    o[0].remove()
+                    o[4] = False
+                    evs.append(f'MOn {k}%nat ORemove')
+            elif r < 0.80:
+                if not o[4]:
+                    maps[o[5]].add_ent(o[0])
+                    o[4] = True
+                    evs.append(f'MOn {k}%nat OReAdd')
+            elif r < 0.87:
+                if not o[4]:
+                    o[2] = _node_of(o[0])
+                    o[0] = None
+                    gc.collect(0)
+                    if o[1]() is None:
+                        o[3] = False
+                        evs.append(f'MOn {k}%nat OGc')
+            else:
+                dest = rng.randrange(3)
+                c = o[0].copy(vmf_file=maps[dest]) if dest != o[5] or rng.random() < 0.5 else o[0].copy()
+                maps[dest].add_ent(c)
+                ents.append([c, weakref.ref(c), None, True, True, dest])
+                evs.append(f'MCopy {k}%nat {dest}%nat')
+                c = None
+            o = None
+    exp = []
+    for e in ents:
+        n = _node_of(e[0]) if e[0] is not None else e[2]
+        exp += [-9 if n is None else n, int(e[3]), int(e[4]), e[5]]
+    held = [[n for n in (_node_of(e[0]) for e in ents if e[0] is not None and e[5] == m) if n is not None] for m in range(3)]
+    exp += [v.node_id.get_id(-1) for v in maps]
+    return evs, exp, held
+
+
+def corr_nodemaps(ck: Ck):
+    """SM/IdNodeMaps.v against real histories of node entities over three maps (cross-map copy, the real collapse_one)."""
+    n = ck.budget(150, 1500)
+    cases = []
+    for i in range(n):
+        evs, exp, held = gen_nodemaps_case(ck.rng, ck.rng.choice([4, 8, 14, 24]))
+        cases.append((evs, exp))
+        ck.count('nodemaps_histories')
+        for e in evs:
+            ck.hist('nodemaps_events', e.split()[0] + (' ' + e.split()[2].strip('()') if e.startswith('MOn') else ''))
+        if any(e.startswith(('MCollapse', 'MCopy')) for e in evs):
+            ck.seen(('nodemaps', tuple(evs)))
+        for m, h in enumerate(held):
+            if len(set(h)) != len(h) or any(x <= 0 for x in h):
+                ck.violation('xmap-node-id-duplicate' if len(set(h)) != len(h) else 'xmap-node-id-nonpositive',
+                             f'map {m}: existing entities hold node IDs {sorted(h)} after a history over three maps',
+                             {'nodemaps_events': evs, 'impl': exp,
+                              'how': 'events in the notation of SM/IdNodeMaps.v on three VMF() objects: MCreate = create_ent(info_node, nodeid=..), '
+                                     'MOn k op, MCopy k m = ents[k].copy(vmf_file=maps[m]) + add_ent, MReserve = Instance.fixup_key, MCollapse = collapse_one'})
+    ck.sample({'nodemaps_events': cases[-1][0], 'impl(nid|-9,alive,inmap,home)*_then_next_ids': cases[-1][1]})
+    exprs = []
+    for lo in range(0, len(cases), 300):
+        part = cases[lo:lo + 300]
+        lit = coq_list(f'({coq_list(evs)}, {coq_Z_list(exp)})' for evs, exp in part)
+        exprs.append(f'bad_idx (fun c : list mev * list Z => zl_eqb (mfull (fst c)) (snd c)) 0 {lit}')
+    return exprs, lambda res: _finish_nodemaps(ck, cases, res)
+
+
+def _finish_nodemaps(ck: Ck, cases, res) -> None:
+    if res is None:
+        ck.obligation('correspondence:nodemaps', False, 'model could not be evaluated')
+        ck.tie_broken.append('correspondence nav-node IDs over several maps: model evaluation failed')
+        return
+    bad = [c * 300 + i for c, idxs in enumerate(res) for i in idxs]
+    ck.obligation('correspondence:nodemaps', not bad,
+                  f"{len(cases)} histories of node entities over three maps (cross-map copy, Instance.fixup_key, the real collapse_one), "
+                  f"model mrun vs the implementation: {len(bad)} disagreements")
+    if bad:
+        c = min((cases[i] for i in bad), key=lambda c: len(c[0]))
+        ck.tie_broken.append('correspondence nav-node IDs over several maps (SM/IdNodeMaps.v mrun vs Entity.copy/collapse_one/fixup_key)')
+        ck.extra['nodemaps_disagreement'] = {'events': c[0], 'impl': c[1]}
 
 
 # ------------------------------------------------------------------------------------------------ VMF.parse
@@ -1332,26 +1517,23 @@ def corr_parse(ck: Ck) -> None:
     bad = []
     wcases = [c for c in cases if c[0] != 'node']
     ncases = [c for c in cases if c[0] == 'node']
+    exprs = []
     for lo in range(0, len(wcases), 400):
         part = wcases[lo:lo + 400]
         lit = coq_list(f'(({k}, {coq_list(evs)}), {coq_Z_list(got)})' for k, evs, got, _ in part)
-        vals = ck.coq_eval(IMPORTS, [f'bad_idx (fun c : (kind * list wev) * list Z => zl_eqb (wids (fst (fst c)) (snd (fst c))) (snd c)) 0 {lit}'],
-                           name='parse', preamble=PARSE_PRE)
-        if vals is None:
-            ck.obligation('correspondence:parse', False, 'model could not be evaluated')
-            ck.tie_broken.append('correspondence VMF.parse: model evaluation failed')
-            return
-        bad += [wcases[lo + i] for i in parse_coq_N_list(vals[0])]
+        exprs.append(f'bad_idx (fun c : (kind * list wev) * list Z => zl_eqb (wids (fst (fst c)) (snd (fst c))) (snd c)) 0 {lit}')
+    n_w = len(exprs)
     for lo in range(0, len(ncases), 400):
         part = ncases[lo:lo + 400]
         lit = coq_list(f'({coq_list(evs)}, {coq_Z_list(got)})' for _, evs, got, _ in part)
-        vals = ck.coq_eval(IMPORTS, [f'bad_idx (fun c : list nev * list Z => zl_eqb (nlive (fst c)) (snd c)) 0 {lit}'],
-                           name='parsenode', preamble=PARSE_PRE)
-        if vals is None:
-            ck.obligation('correspondence:parse', False, 'model could not be evaluated')
-            ck.tie_broken.append('correspondence VMF.parse: model evaluation failed')
-            return
-        bad += [ncases[lo + i] for i in parse_coq_N_list(vals[0])]
+        exprs.append(f'bad_idx (fun c : list nev * list Z => zl_eqb (nlive (fst c)) (snd c)) 0 {lit}')
+    res = eval_bad(ck, 'parse', PARSE_PRE, exprs, per_call=6)
+    if res is None:
+        ck.obligation('correspondence:parse', False, 'model could not be evaluated')
+        ck.tie_broken.append('correspondence VMF.parse: model evaluation failed')
+        return
+    bad += [wcases[c * 400 + i] for c, idxs in enumerate(res[:n_w]) for i in idxs]
+    bad += [ncases[c * 400 + i] for c, idxs in enumerate(res[n_w:]) for i in idxs]
     ck.obligation('correspondence:parse', not bad,
                   f'{len(cases)} per-kind ID lists of {n} parsed documents (entities, brushes, faces, groups, visgroups, node IDs), '
                   f'model WParse/NCreate vs VMF.parse: {len(bad)} disagreements')
@@ -1414,7 +1596,7 @@ def run(ck: Ck) -> None:
         ror = any(r[0] == 'KEnt' and r[1] != 'SDel' for r in side.get('releases', []))
         corr_lifecycle(ck, ror)
         corr_world(ck)
-        corr_node(ck)
+        corr_nodes(ck)
         corr_parse(ck)
     search_lifecycle(ck)
     # Failed obligations are explained when the search exhibits a concrete history of the corresponding class.
@@ -1445,6 +1627,7 @@ def run(ck: Ck) -> None:
         ck.explain('instance:node_id_not_released_on_remove')
         ck.explain('instance:every_keyvalue_write_goes_through_node_registration')
         ck.explain('correspondence:node')
+        ck.explain('correspondence:nodemaps')
     if has('-id-nonpositive'):
         ck.explain('instance:idman_hint_lowered_only_by_positive_ids')
         ck.explain('correspondence:idman')
